@@ -1223,6 +1223,24 @@ Qed.
     that the sequential specification produces for it in a state reached by
     executing whole operations one after the other: a lookup is matched against
     one committed state, never a partially applied change. *)
+Theorem completed_ops_atomic_lin c0 ls c σ pl tr t o log :
+  initial c0 -> lin c0 ls c σ pl tr -> In (LEnd t o log) ls ->
+  exists H1 H2 s1 s2,
+    lins tr = H1 ++ (t, o, log) :: H2 /\
+    seq_hist wfun sk (abs_of c0) H1 s1 /\ seq_run wfun sk o s1 = Some (s2, log).
+Proof.
+  intros Hi L Hin.
+  pose proof (lin_hist _ _ _ _ _ _ L) as Hh.
+  destruct (lin_wb _ _ _ _ _ _ Hi L) as (ph & Hwb & _).
+  assert (Hm : In (MRes t o log) tr).
+  { assert (X : In (MRes t o log) (io_labels ls)).
+    { unfold io_labels. apply in_flat_map. exists (LEnd t o log). split; [assumption|left; reflexivity]. }
+    rewrite <- (lin_io _ _ _ _ _ _ L) in X. unfold io_marks in X. apply filter_In in X. tauto. }
+  pose proof (wb_res_lin _ _ _ Hwb [] (fun t0 o0 log0 (X : PIdle = PLin o0 log0) => match X with end) t o log Hm) as Hl.
+  simpl in Hl. destruct (seq_hist_split _ _ _ _ Hh Hl) as (H1 & H2 & s1 & s2 & E & Hh1 & Hr).
+  exists H1, H2, s1, s2. auto.
+Qed.
+
 Theorem completed_ops_atomic c0 ls c t o log :
   initial c0 -> exec c0 ls c -> In (LEnd t o log) ls ->
   exists H H1 H2 s s1 s2,
@@ -1294,15 +1312,13 @@ Definition other_thread (t : tid) (l : label val arg) : Prop :=
 (** REAL-TIME ORDER: if operation 1 had returned before operation 2 was invoked
     (and operation 2 completed), then the sequential history contains
     operation 1 before operation 2 *)
-Theorem real_time_order c0 c la t1 o1 log1 lb t2 o2 ld log2 le :
+Theorem real_time_order_lin c0 c σ pl tr la t1 o1 log1 lb t2 o2 ld log2 le :
   initial c0 ->
-  exec c0 (la ++ LEnd t1 o1 log1 :: lb ++ LBegin t2 o2 :: ld ++ LEnd t2 o2 log2 :: le) c ->
+  lin c0 (la ++ LEnd t1 o1 log1 :: lb ++ LBegin t2 o2 :: ld ++ LEnd t2 o2 log2 :: le) c σ pl tr ->
   Forall (other_thread t2) ld ->
-  exists H Ha Hm Hb s,
-    seq_hist wfun sk (abs_of c0) H s /\
-    H = Ha ++ (t1, o1, log1) :: Hm ++ (t2, o2, log2) :: Hb.
+  exists Ha Hm Hb, lins tr = Ha ++ (t1, o1, log1) :: Hm ++ (t2, o2, log2) :: Hb.
 Proof.
-  intros Hi He Hld. destruct (lin_total c0 _ c Hi He) as (σ & pl & tr & L).
+  intros Hi L Hld.
   pose proof (lin_hist _ _ _ _ _ _ L) as Hh.
   destruct (lin_wb _ _ _ _ _ _ Hi L) as (ph & Hwb & _).
   pose proof (lin_io _ _ _ _ _ _ L) as Hio. unfold io_labels in Hio.
@@ -1347,12 +1363,132 @@ Proof.
         + destruct Y as [Y|[]]. inversion Y. congruence. }
     specialize (X Hm [] o2 (or_introl (upd_same _ _ _)) o2 log2 Ok3). exact X. }
   apply in_split in In1 as (A1 & B1 & EA). apply in_split in In2 as (A2 & B2 & EB).
-  exists (lins (T1 ++ MRes t1 o1 log1 :: T2 ++ MInv t2 o2 :: T3 ++ MRes t2 o2 log2 :: T4)), A1,
-         (B1 ++ lins T2 ++ A2), (B2 ++ lins T4), σ.
-  split; [exact Hh|].
+  exists A1, (B1 ++ lins T2 ++ A2), (B2 ++ lins T4).
   change (MRes t1 o1 log1 :: T2 ++ MInv t2 o2 :: T3 ++ MRes t2 o2 log2 :: T4)
     with ([MRes t1 o1 log1] ++ T2 ++ [MInv t2 o2] ++ T3 ++ [MRes t2 o2 log2] ++ T4).
   rewrite !lins_app, EA, EB. simpl. repeat (rewrite <- app_assoc; simpl). reflexivity.
+Qed.
+
+Theorem real_time_order c0 c la t1 o1 log1 lb t2 o2 ld log2 le :
+  initial c0 ->
+  exec c0 (la ++ LEnd t1 o1 log1 :: lb ++ LBegin t2 o2 :: ld ++ LEnd t2 o2 log2 :: le) c ->
+  Forall (other_thread t2) ld ->
+  exists H Ha Hm Hb s,
+    seq_hist wfun sk (abs_of c0) H s /\
+    H = Ha ++ (t1, o1, log1) :: Hm ++ (t2, o2, log2) :: Hb.
+Proof.
+  intros Hi He Hld. destruct (lin_total c0 _ c Hi He) as (σ & pl & tr & L).
+  destruct (real_time_order_lin _ _ _ _ _ _ _ _ _ _ _ _ _ _ _ Hi L Hld) as (Ha & Hm & Hb & E).
+  exists (lins tr), Ha, Hm, Hb, σ. split; [eapply lin_hist; eassumption|exact E].
+Qed.
+
+(* ---------------------------------------------------------------- the sequential history is made of the execution's operations *)
+
+(** every running operation has been started in the execution *)
+Lemma exec_begun c0 ls c : initial c0 -> exec c0 ls c ->
+  forall t r, c_thr c t = Some r -> In (LBegin t (r_op r)) ls.
+Proof.
+  intros Hi H. induction H as [c|c0 ls c l c' H IH Hs]; intros t r Ht.
+  - destruct Hi as (_ & Hn & _). rewrite Hn in Ht. discriminate.
+  - apply in_or_app.
+    destruct Hs as [t1 o path Hnone Hpath | t1 r1 e rest c' Ht1 Htodo Hev | t1 r1 Ht1 Htodo]; simpl in Ht.
+    + unfold upd in Ht. destruct (Nat.eqb_spec t t1) as [->|N].
+      * inversion Ht; subst. simpl. right. left. reflexivity.
+      * left. apply (IH Hi _ _ Ht).
+    + destruct (ev_step_thr val arg wfun wp c t1 r1 rest e c' Hev) as (r' & Ethr & _ & _ & Hop').
+      rewrite Ethr in Ht. unfold upd in Ht. destruct (Nat.eqb_spec t t1) as [->|N].
+      * inversion Ht; subst. rewrite Hop'. left. apply (IH Hi _ _ Ht1).
+      * left. apply (IH Hi _ _ Ht).
+    + unfold upd in Ht. destruct (Nat.eqb_spec t t1) as [->|N]; [discriminate|]. left. apply (IH Hi _ _ Ht).
+Qed.
+
+(** no phantom operations: every entry of the sequential history is an operation the execution started *)
+Theorem lins_invoked c0 ls c σ pl tr : initial c0 -> lin c0 ls c σ pl tr ->
+  forall t o log, In (t, o, log) (lins tr) -> In (LBegin t o) ls.
+Proof.
+  intros Hi H. induction H as [|ls c σ pl tr l c' t0 o0 σ' plog H IH Hs Hlp Hseq|ls c σ pl tr l c' H IH Hs Hlp];
+    intros t o log Hin.
+  - destruct Hin.
+  - rewrite lins_app, lins_marks in Hin. apply in_or_app. apply in_app_or in Hin as [Hin|[Hin|[]]].
+    + left. apply (IH _ _ _ Hin).
+    + inversion Hin; subst t0 o0 plog. destruct l as [t1 o1|t1 e1|t1 o1 log1]; simpl in Hlp.
+      * destruct (path_of sk o1) as [path|]; [|discriminate]. destruct (existsb sens path); [discriminate|].
+        inversion Hlp; subst. right. left. reflexivity.
+      * destruct (c_thr c t1) as [r|] eqn:Ht; [|discriminate].
+        destruct (r_todo r) as [|e' rest]; [discriminate|]. destruct (is_lp_ev r e' rest); [|discriminate].
+        inversion Hlp; subst. left. apply (exec_begun c0 ls c Hi (lin_exec _ _ _ _ _ _ H) _ _ Ht).
+      * discriminate.
+  - rewrite lins_app, lins_marks, app_nil_r in Hin. apply in_or_app. left. apply (IH _ _ _ Hin).
+Qed.
+
+(** per thread: the linearized operations are the returned ones, in the same order, plus at most the one in flight *)
+Definition thread_hist (t : tid) (H : list (tid * op arg * list val)) : list (op arg * list val) :=
+  flat_map (fun x : tid * op arg * list val => if fst (fst x) =? t then [(snd (fst x), snd x)] else []) H.
+
+Definition thread_returns (t : tid) (ls : list (label val arg)) : list (op arg * list val) :=
+  flat_map (fun l => match l with LEnd t' o log => if t' =? t then [(o, log)] else [] | _ => [] end) ls.
+
+Definition res_marks (t : tid) (tr : list mark) : list (op arg * list val) :=
+  flat_map (fun m => match m with MRes t' o log => if t' =? t then [(o, log)] else [] | _ => [] end) tr.
+
+Definition pend (ph : tid -> tphase) (t : tid) : list (op arg * list val) :=
+  match ph t with PLin o log => [(o, log)] | _ => [] end.
+
+Lemma thread_hist_lins t tr :
+  thread_hist t (lins tr) =
+  flat_map (fun m => match m with MLin t' o log => if t' =? t then [(o, log)] else [] | _ => [] end) tr.
+Proof.
+  induction tr as [|m tr IH]; [reflexivity|]. change (m :: tr) with ([m] ++ tr).
+  rewrite lins_app. unfold thread_hist in *. rewrite !flat_map_app, IH. f_equal.
+  destruct m; simpl; try reflexivity; rewrite app_nil_r; reflexivity.
+Qed.
+
+Lemma wb_thread ph tr ph' : wb ph tr ph' ->
+  forall t, pend ph t ++ thread_hist t (lins tr) = res_marks t tr ++ pend ph' t.
+Proof.
+  induction 1 as [ph|ph m tr ph' Hok Hwb IH]; intro t.
+  - simpl. rewrite app_nil_r. reflexivity.
+  - specialize (IH t). rewrite thread_hist_lins in *. unfold pend in *.
+    destruct m as [t1 o1|t1 o1 log1|t1 o1 log1]; simpl in Hok, IH |- *; unfold upd in IH.
+    + destruct (Nat.eqb_spec t t1) as [E|N].
+      * subst t1. rewrite Hok. exact IH.
+      * exact IH.
+    + destruct (Nat.eqb_spec t t1) as [E|N].
+      * subst t1. rewrite Hok, Nat.eqb_refl. simpl in *. exact IH.
+      * apply Nat.eqb_neq in N. rewrite Nat.eqb_sym, N. exact IH.
+    + destruct (Nat.eqb_spec t t1) as [E|N].
+      * subst t1. rewrite Hok, Nat.eqb_refl. simpl in *. rewrite <- IH. reflexivity.
+      * apply Nat.eqb_neq in N. rewrite Nat.eqb_sym, N. exact IH.
+Qed.
+
+Lemma res_marks_io t tr : res_marks t (io_marks tr) = res_marks t tr.
+Proof.
+  unfold res_marks, io_marks. induction tr as [|m tr IH]; [reflexivity|]. simpl.
+  destruct m; simpl; rewrite IH; reflexivity.
+Qed.
+
+Lemma res_marks_labels t ls : res_marks t (io_labels ls) = thread_returns t ls.
+Proof.
+  unfold res_marks, io_labels, thread_returns. induction ls as [|l ls IH]; [reflexivity|]. simpl.
+  rewrite flat_map_app, IH. f_equal. destruct l; simpl; try reflexivity. rewrite app_nil_r. reflexivity.
+Qed.
+
+(** THE SEQUENTIAL HISTORY IS THE EXECUTION, REORDERED: restricted to any thread, [lins tr] lists
+    exactly the operations that thread completed, in the order and with the logs it returned,
+    followed by at most one operation that is linearized but has not returned yet; when nothing is
+    in flight there is no such extra operation *)
+Theorem lin_thread_order c0 ls c σ pl tr t :
+  initial c0 -> lin c0 ls c σ pl tr ->
+  exists extra, thread_hist t (lins tr) = thread_returns t ls ++ extra /\ length extra <= 1 /\
+                (c_thr c t = None -> extra = []).
+Proof.
+  intros Hi L. destruct (lin_wb _ _ _ _ _ _ Hi L) as (ph & Hwb & Hph).
+  pose proof (wb_thread _ _ _ Hwb t) as E. unfold pend at 1 in E. simpl in E.
+  rewrite <- res_marks_io, (lin_io _ _ _ _ _ _ L), res_marks_labels in E.
+  exists (pend ph t). split; [exact E|]. unfold pend. split.
+  - destruct (ph t); simpl; lia.
+  - intro Hn. specialize (Hph t). destruct (ph t) as [|o|o log]; [reflexivity|reflexivity|].
+    destruct Hph as (r & Hr & _). congruence.
 Qed.
 
 End Lin.
@@ -1365,3 +1501,4 @@ Arguments wb {val arg}. Arguments mark_ok {val arg}. Arguments mark_next {val ar
 Arguments io_marks {val arg}. Arguments io_labels {val arg}. Arguments ph_inv {val arg}.
 Arguments sim {val arg}. Arguments thread_inv {val arg}. Arguments pending {val arg}. Arguments inKr {val arg}.
 Arguments other_thread {val arg}.
+Arguments thread_hist {val arg}. Arguments thread_returns {val arg}.
